@@ -67,6 +67,15 @@ def gen_cases(tier, seed):
     # row-set helpers well beyond toy sizes (any blocking / chunking of the comparison must be invisible)
     for na, nb, ncol in ([(5000, 3500, 2), (20000, 900, 1)] if tier == "quick" else [(5000, 3500, 2), (20000, 900, 1), (3000, 3000, 3), (9000, 2500, 2), (60000, 300, 1)]):
         yield {"w": "rows_large", "na": na, "nb": nb, "ncol": ncol, "cseed": int(rng.integers(0, 2 ** 31))}
+    # both operands the same rows in the same order (the same object, or an equal copy), with and without repeated rows
+    for ncol in (1, 2, 3):
+        for _ in range(4 if tier == "quick" else 30):
+            k = int(rng.integers(1, 6))
+            A = rng.integers(0, 3, size=(k, ncol))
+            if rng.random() < 0.7 and k >= 2:
+                A[int(rng.integers(1, k))] = A[0]
+            for same_ in ("object", "copy"):
+                yield {"w": "rows", "A": A.tolist(), "B": A.tolist(), "ncol": ncol, "same": same_}
     # tt_dimscheck
     maxN = 4 if tier == "quick" else 5
     for N in range(1, maxN + 1):
@@ -247,11 +256,24 @@ def run_case(case, ctx):
     elif w == "rows":
         ncol = case["ncol"]
         A, B = _rows(case["A"], ncol), _rows(case["B"], ncol)
+        if case.get("same") == "object":
+            B = A                      # the very same array as both operands
+        elif case.get("same") == "copy":
+            B = A.copy()
+        if case.get("same"):
+            case = dict(case, B=case["A"])
+            ctx.feat(same=case["same"])
+
+        def _pair():
+            if case.get("same") == "object":
+                X_ = A.copy()
+                return X_, X_
+            return A.copy(), B.copy()
         sa = [tuple(r) for r in A.tolist()]
         sb = [tuple(r) for r in B.tolist()]
         ctx.feat(a_repeats=(len(set(sa)) != len(sa)), b_repeats=(len(set(sb)) != len(sb)), a_empty=(len(sa) == 0), b_empty=(len(sb) == 0))
         # membership
-        r = ctx.call("tt_ismember_rows", U.tt_ismember_rows, A.copy(), B.copy())
+        r = ctx.call("tt_ismember_rows", U.tt_ismember_rows, *_pair())
         if r.ok:
             matched, loc = r.value
             ok = len(matched) == len(sa) and len(loc) == len(sa)
@@ -267,7 +289,7 @@ def run_case(case, ctx):
             ctx.check(False, "tt_ismember_rows", "RAISE:" + type(r.exc).__name__, f"A={sa} B={sb}: {r.exc}")
         for op, fn, wantset in (("tt_intersect_rows", U.tt_intersect_rows, set(sa) & set(sb)),
                                 ("tt_setdiff_rows", U.tt_setdiff_rows, set(sa) - set(sb))):
-            r = ctx.call(op, fn, A.copy(), B.copy())
+            r = ctx.call(op, fn, *_pair())
             if not r.ok:
                 ctx.check(False, op, "RAISE:" + type(r.exc).__name__, f"A={sa} B={sb}: {r.exc}")
                 continue
@@ -277,7 +299,7 @@ def run_case(case, ctx):
                 rows = [sa[i] for i in idx]
                 ok = len(rows) == len(set(rows)) and set(rows) == wantset
             ctx.check(ok, op, "WRONG", f"A={sa} B={sb}: indices {idx} select {[sa[i] for i in idx if 0 <= i < len(sa)]} want {sorted(wantset)}")
-        r = ctx.call("tt_union_rows", U.tt_union_rows, A.copy(), B.copy())
+        r = ctx.call("tt_union_rows", U.tt_union_rows, *_pair())
         if r.ok:
             rows = [tuple(int(v) for v in x) for x in np.asarray(r.value).reshape(-1, ncol).tolist()] if np.asarray(r.value).size else []
             ctx.check(len(rows) == len(set(rows)) and set(rows) == set(sa) | set(sb), "tt_union_rows", "WRONG",
